@@ -508,6 +508,27 @@ static json observe_all(State& st, const json& a)
         for (auto& t : live_tracks) found_tracks.emplace(t.id(), t);
         for (auto& [i, t] : found_tracks) ot[std::to_string(i)] = observe_track(t, with_snapshot);
         o["tracks"] = ot;
+        // handles the caller has been holding since earlier steps must answer like handles obtained just now
+        json dis = json::array();
+        int compared = 0;
+        for (auto& [h, t] : st.tracks)
+        {
+            auto it = ot.find(std::to_string(t.id()));
+            if (it == ot.end()) continue;
+            ++compared;
+            json held = observe_track(t, with_snapshot);
+            if (held != *it)
+            {
+                json fields_ = json::array();
+                if (held.contains("get") && it->contains("get"))
+                    for (auto& [k, v] : held["get"].items())
+                        if ((*it)["get"].value(k, json()) != v) fields_.push_back(k);
+                if (held.value("snapshot", json()) != it->value("snapshot", json())) fields_.push_back("snapshot");
+                dis.push_back({{"handle", h}, {"id", t.id()}, {"fields", fields_}});
+            }
+        }
+        if (!dis.empty()) o["held_handles_disagree"] = dis;
+        o["held_handles_compared"] = compared;
     }
     return o;
 }
